@@ -1190,6 +1190,11 @@ class Interp:
                 raise NotEvaluable("membership %s" % ast.unparse(node))
             return res if isinstance(op, ast.In) else not res
         if isinstance(op, (ast.Is, ast.IsNot)):
+            if isinstance(a, Sym) or isinstance(b, Sym):
+                h = self.hooks.get("symcompare")
+                r = h(self, "Is", a, b, node) if h is not None else NotImplemented
+                if r is not NotImplemented:
+                    return r if isinstance(op, ast.Is) else not r
             if isinstance(a, Free) or isinstance(b, Free):
                 if a is None or b is None:
                     res = False     # input fields are never None
